@@ -9,7 +9,7 @@ Section Inv.
 Variable keccak : list Z -> Z.
 Variable blockhash : Z -> Z.
 Notation step := (step keccak blockhash).
-Notation exec := (exec keccak blockhash).
+Notation exec := (exec keccak).
 Notation run_n := (run_n keccak blockhash).
 
 (** a suspended caller has popped its arguments and still has to receive one result word *)
